@@ -14,7 +14,7 @@ def cases(tier):
     r = rng("e2e-suite")
     base = suite_parse.cases(tier)
     if tier != "thorough":
-        keep = [c for c in base if c["kind"] in ("probe", "generated", "malformed", "example", "test-program")]
+        keep = [c for c in base if c["kind"] in ("probe", "generated", "malformed", "example", "test-program", "prop-probe")]
         keep += r.sample([c for c in base if c["kind"].startswith("layout")], 60)
     else:
         keep = [c for c in base if not c["kind"].startswith("layout")] + r.sample([c for c in base if c["kind"].startswith("layout")], 1500)
